@@ -70,6 +70,8 @@ class Baton:
         # PCT: a few pre-drawn step numbers at which the running thread's priority drops
         depth = int(self.sched.get("pct_depth", 2))
         horizon = int(self.sched.get("pct_horizon", 300))
+        self._preempt_at = set(self.sched.get("preempt_at", ()))
+        self.preempted = []
         self._pct_points = sorted(self.rng.randrange(1, horizon) for _ in range(depth)) if self.mode == "pct" else []
 
     # ---------------------------------------------------------------- scheduling core
@@ -115,6 +117,14 @@ class Baton:
             return others[0] if others else self.main
         if mode == "stay":           # never pre-empt voluntarily
             return me if me_ok else runnable[0]
+        if mode == "pb":             # preemption-bounded: run on unless this decision point is in the list
+            d = self.decisions - 1
+            if me_ok and d not in self._preempt_at:
+                return me
+            others = [t for t in runnable if t is not me]
+            if me_ok:
+                self.preempted.append(d)
+            return others[0] if others else me
         raise ValueError(mode)
 
     def yield_point(self, tag, pred=None, timed=False, line=False):
